@@ -15,8 +15,11 @@ CONSTANTS Keys,        \* key identities, e.g. {"rsaA","rsaB","p256A","p256B","p
           Variant      \* "code" | "NoSameKey" | "TypeOnlySameKey" | "LeafNotFirst" | "PgpUnchecked"
 
 KeyType(k) == IF k \in {"rsaA", "rsaB"} THEN "rsa" ELSE "ec"
+\* "p256Aneg" is the key n-d of p256A: same curve, same X coordinate, Y negated - as close as two different keys get
+NearMiss(a, b) == {a, b} = {"p256A", "p256Aneg"}
 
-VARIABLES cfg,      \* [priv, x509For, order, blobFor, pgpFor, path]   ("none" = not configured)
+VARIABLES cfg,      \* [priv, x509For, order, blobFor, pgpFor, path, prior]   ("none" = not configured)
+                    \* prior = "rightful": earlier in the same process the certificate source was loaded successfully for its own key
           pc,       \* "cfg" -> "loaded" | "error" -> "emitted"
           leaf,     \* key identity the loader takes as the leaf certificate's subject key ("none")
           chain,    \* sequence of positions emitted: "leaf" | "inter"
@@ -27,7 +30,8 @@ vars == <<cfg, pc, leaf, chain, sigBy, emitted>>
 
 Init ==
   /\ cfg \in [priv : Keys, x509For : Keys \cup {"none"}, order : Orders, blobFor : Keys \cup {"none"},
-              pgpFor : Keys \cup {"none"}, path : Paths]
+              pgpFor : Keys \cup {"none"}, path : Paths, prior : {"none", "rightful"}]
+  /\ cfg.prior = "rightful" => (cfg.x509For # "none" /\ cfg.path \notin PgpPaths)
   /\ cfg.x509For = "none" => cfg.order = "leafOnly"
   /\ ~(cfg.x509For # "none" /\ cfg.blobFor # "none")          \* a file takes precedence; model one source at a time
   /\ cfg.path \in PgpPaths <=> cfg.pgpFor # "none"             \* PGP types need a PGP certificate, X.509 types an X.509 one
@@ -43,6 +47,8 @@ FirstCertKey ==
 Same(a, b) ==
   CASE Variant = "NoSameKey" -> TRUE
     [] Variant = "TypeOnlySameKey" -> a # "interKey" /\ b # "interKey" /\ KeyType(a) = KeyType(b)
+    [] Variant = "SameXOnly" -> a = b \/ NearMiss(a, b)
+    [] Variant = "CacheBySource" /\ cfg.prior = "rightful" -> TRUE     \* the check is skipped for a source seen before
     [] OTHER -> a = b
 
 Load ==
